@@ -39,14 +39,16 @@ CHECKS.update({
             "and at every later point of the history (cache-coherence invariant + symbolic execution of the cache-less Decrypt); AND inside one long-lived process with key caches of any policy and capacity: after any "
             "history of new factories/sessions, encrypts and decrypts under any fault plans, clock changes and revocations, a fault-free Decrypt in any live session of the same partition id returns exactly the payload "
             "(total correctness: liveness invariant on reference counts with a ghost map of holds, Envelope/Live.v 2900 lines); with Session.Close in the history too for factories whose sessions own no key cache "
-            "(shared IK cache or IK caching off, Envelope/LiveClose.v).",
+            "(shared IK cache or IK caching off, Envelope/LiveClose.v); and an UNFAULTED Encrypt after any such history cannot fail - through cache hits, stale or invalid entries, metastore loads, key creation and the "
+            "duplicate fallback (Envelope/Total.v 1000 lines).",
             "Not in the theorems: histories that close per-session key caches or factories or use the session cache, region-suffixed ids, stored rows with creation stamp 0 (side condition nz_store), concurrency (C08/C16 models); "
             "these are decided by the correspondence and the monitors.", "6/C01"),
  "C02": env("Fault plans (err / false duplicate / error-after-write on every metastore, KMS, AEAD, allocator call, singles and pairs) on cold/warm/rotating states: a returned record's IK row and SK row must be in the "
             "authoritative store at return and a fresh process must decrypt it; an unfaulted encrypt must succeed. PROVED over all histories (any fault plans, policies, evictions, restarts, revocations; one "
             "service/product, default key ids): every record ever returned names a stored intermediate key row whose parent system key row is stored, and is sealed so that those rows and the KMS open it "
             "(cache-coherence invariant through key_cache.go / envelope.go / session.go / session_cache.go, 2000 lines of Coq); the store only grows and only holds well-formed rows.",
-            "The fresh-process clause is a theorem too (C02_fresh_process_decrypts). Not in the theorems: region-suffixed ids, several services in one metastore, 'once the faults stop the next operation succeeds' (monitor).", "6/C02"),
+            "The fresh-process clause is a theorem too (C02_fresh_process_decrypts), and so is 'once the faults stop the next operation succeeds' for Encrypt (C02_once_the_faults_stop_encrypt_succeeds, histories without closes / session cache). "
+            "Not in the theorems: region-suffixed ids, several services in one metastore.", "6/C02"),
  "C03": env("AEAD/KMS/secret-factory call traces must equal the model's; payload sealed only under a data key generated in the same operation, data key used once, real (key, nonce) pairs unique, plaintext scan of rows/records/log lines/KMS traffic.",
             "Nonce/key freshness of crypto/rand is an assumption; the theorem is that the code asks for a fresh key and nonce every time.", "6/C03"),
  "C04": env("Boundary-clock histories: no record under an expired IK, no IK created under an expired SK (when no fault is injected), IK dropped within one interval of its SK's expiry. PROVED over all histories "
